@@ -236,7 +236,16 @@ def standard(prop, tier, seed, engines, assumptions, known_witnesses=None, extra
     mism = r.d1(engines)
     if mism is None:
         return r.finish()
-    hits = getattr(r, "_monitor_hits", [])
+    # monitor clause ids may be prefixed "Cxx:" when one engine serves several properties;
+    # a hit belongs to this check iff it has no prefix or this property's prefix
+    def mine(clause):
+        return ":" not in clause or clause.split(":", 1)[0] == prop
+    for e in engines:
+        if not getattr(e, "_filtered", False):
+            orig = e.monitor
+            e.monitor = (lambda orig: lambda line, out: [(c, d) for c, d in orig(line, out) if mine(c)])(orig)
+            e._filtered = True
+    hits = [h for h in getattr(r, "_monitor_hits", []) if mine(h["clause"])]
 
     # 1. property monitors on the implementation: concrete failing inputs
     new_hits = {}
